@@ -524,6 +524,11 @@ func (x *E9) evalBody(list []ast.Stmt, env map[string]int64) (e9Val, error) {
 			if err != nil || !r.isNone() {
 				return r, err
 			}
+		case *ast.BranchStmt:
+			if s.Tok == token.CONTINUE && s.Label == nil {
+				return e9Cont, nil // a loop body evaluated for one iteration: this iteration ends without a result
+			}
+			return e9Val{}, x.failf(st.Pos(), "unsupported branch statement %s in decision function", s.Tok)
 		default:
 			return e9Val{}, x.failf(st.Pos(), "unsupported statement %T in decision function", st)
 		}
@@ -532,6 +537,9 @@ func (x *E9) evalBody(list []ast.Stmt, env map[string]int64) (e9Val, error) {
 }
 
 var e9None = e9Val{i: -1 << 62}
+
+// e9Cont: the evaluated loop body ended its iteration with `continue`.
+var e9Cont = e9Val{i: -1 << 61}
 
 func (v e9Val) isNone() bool { return v == e9None }
 
